@@ -84,10 +84,10 @@ def reference(case):
     )
 
 
-def body(case, rec):
+def body(case, rec, H=None):
     from synkit.CRN.Props.deficiency import DeficiencyAnalyzer
 
-    H = crn_gen.build(case)
+    H = crn_gen.build(case) if H is None else H
     ref = reference(case)
     rec.nt(ref["nonzero_reactant_complexes"] >= 2)
     rec.label(f"reactions={min(len(case['rx']) // 3 * 3, 9)}+", f"deficiency={min(ref['deficiency'], 3)}", f"weakly_reversible={ref['weakly_reversible']}", f"linkage={min(ref['n_linkage'], 4)}")
@@ -130,6 +130,17 @@ def body(case, rec):
     s2 = DeficiencyAnalyzer(hypergraph_to_bipartite(H)).compute_crn_deficiency().summary
     if (s2.n_complexes, s2.n_linkage_classes, s2.deficiency, s2.weakly_reversible) != (s.n_complexes, s.n_linkage_classes, s.deficiency, s.weakly_reversible):
         raise Violation("bipartite-input", f"{where}: summary differs between hypergraph and bipartite input")
+
+
+def body_after_edit(case, rec):
+    """The analysed object is a network that was analysed before and then edited in place: everything must be as for
+    the final reaction list (state kept from an earlier analysis must not leak)."""
+    from synkit.CRN.Props.deficiency import DeficiencyAnalyzer
+
+    H, final, preserved = crn_gen.build_edited(case, lambda h: DeficiencyAnalyzer(h).compute_crn_deficiency().summary)
+    body({"rx": final}, rec, H=H)
+    rec.label("count-preserving-edit" if preserved else "counts-changed")
+    rec.nontrivial = bool(rec.nontrivial and preserved)
 
 
 TEXTBOOK = [
@@ -209,5 +220,7 @@ SUBS = [
     Sub("textbook", body_textbook, enum=lambda tier: [{"i": i} for i in range(len(TEXTBOOK))], exhaustive=True, shards={"quick": 1, "thorough": 1}),
     Sub("small_pairs", body, enum=enum_small, exhaustive=("thorough",), shards={"quick": 16, "thorough": 16}),
     Sub("small_triples", body, enum=enum_triples, shards={"quick": 8, "thorough": 16}),
+    Sub("after_edit", body_after_edit, strategy=lambda tier: crn_gen.edited_net_strategy(max_species=4, max_rxn=4, max_coef=2), examples={"quick": 4000, "thorough": 60000}, shards={"quick": 8, "thorough": 16},
+        doc="network objects reached by in-place edits after an earlier analysis (remove+add, add, remove)"),
     Sub("random", body, strategy=strat, examples={"quick": 16000, "thorough": 300000}, shards={"quick": 16, "thorough": 16}),
 ]
